@@ -45,7 +45,11 @@ def tuple_ops(rng, k):
 
 def cases(rng, tier, X):
     n = 1200 if tier == 'quick' else 120000
-    return [('t%d' % k, tuple_ops(rng, k)) for k in range(n)]
+    out = [('t%d' % k, tuple_ops(rng, k)) for k in range(n)]
+    # universal traffic (every frame type / sender / path / service / boundary value, 1..3 interfaces): this check's predicate on it
+    for k in range(60 if tier == 'quick' else 6000):
+        out.append(('u%d' % k, F.universal(rng)))
+    return out
 
 
 def nontrivial(ops, impl):
